@@ -790,4 +790,13 @@ MODULES["VecCmplx"] = dict(
         dict(name="vconj", file=V_CPX, impl=r"^<T:Clone\+Signed>Vector<Complex::<T>>$", fn="conj"),
         dict(name="vreal", file=V_CPX, impl=r"^<T:Clone\+Number>Vector<Complex::<T>>$", fn="real"),
         dict(name="cnorm_inf", file=V_CPX, impl=r"^Vector<Complex::<f64>>$", fn="norm_inf"),
+        # Tridiagonal::<Complex<T>>::conj (src/tridiagonal.rs): the three diagonals conjugated
+        dict(name="tconj", file=TRI, impl=r"Tridiagonal::<Complex::<T>>$", fn="conj"),
     ])
+GTYPES["ctri"] = "(tridiag CA)"
+RUST_TYPES.append((r"^Tridiagonal<Complex<T>>$", "ctri"))
+MODULES["VecCmplx"]["spec"]["fields"].update({("ctri", "sub"): ("(tsub {0})", "cvec"), ("ctri", "main"): ("(tmain {0})", "cvec"),
+                                               ("ctri", "sup"): ("(tsup {0})", "cvec"), ("ctri", "n"): ("(tn {0})", "usize")})
+MODULES["VecCmplx"]["spec"]["methods"][("cvec", "conj", 0)] = dict(g="(vconj {0} : list (T CA))", ret="cvec", atom=True)
+MODULES["VecCmplx"]["spec"]["structs"] = {"Tridiagonal": (["sub", "main", "sup", "n"], "(@mkT CA {0} {1} {2} {3})", "ctri")}
+MODULES["VecCmplx"]["imports"] = "From OV Require Import Base.Panic Base.Arith Model.Complex Model.Vector Model.Matrix Model.Tridiag Model.Newton gen.SrcPrelude."
